@@ -643,6 +643,8 @@ func main() {
 	c.Assume("blake2b (golang.org/x/crypto) is trusted")
 	c.Assume("a variant counts as accepted when ledger.NewBlockFromCbor accepts it with the default configuration or with the documented SkipBodyHashValidation option (re-encoding a body segment necessarily changes the body hash the header commits to)")
 	c.Assume("completeness: a located component without a reported range (zero metadata range, shorter output list, absent datum/redeemer/script entry, missing transaction location) is a violation ('|missing'), except the documented non-reporting counted as observations: the streaming extractor's empty list for Dijkstra blocks, datum lists in the #6.258 set encoding, and an extractor that returns an error")
+	// free-running -race pass: concurrent callers on their own inputs (state the library shares between calls)
+	c.RaceAudit("c07")
 	c.Finish()
 }
 
